@@ -240,6 +240,8 @@ pub struct World {
     /// write statements issued by the aggregator during each applied event (when recording)
     pub statements_by_step: Vec<(usize, Vec<String>)>,
     pub liveness_requested: bool,
+    /// number of `CheckLiveness` markers seen (= quiescence phases completed)
+    pub liveness_markers: usize,
     pub db_faults_counted: usize,
     /// (party, entity) pairs for which the party won no lottery
     pub lost_lotteries: std::collections::BTreeSet<(usize, Entity)>,
@@ -360,6 +362,7 @@ impl World {
             crashes_at: vec![],
             statements_by_step: vec![],
             liveness_requested: false,
+            liveness_markers: 0,
             db_faults_counted: 0,
             lost_lotteries: Default::default(),
             quiescence_register_attempts: BTreeMap::new(),
@@ -475,10 +478,12 @@ impl World {
         Some((epoch, current, next))
     }
 
-    /// The open message a signer would sign now: oldest non-certified, non-expired one.
+    /// The open message a signer would sign now: the most recently opened round, if it is neither
+    /// certified nor expired (the aggregator works on one round at a time; an older uncertified
+    /// round has been superseded by a later beacon).
     pub fn current_open_message(&self) -> Option<crate::db::OpenMessageRow> {
         let db = self.db()?;
-        db.open_messages().into_iter().find(|om| !om.is_certified && !om.is_expired)
+        db.open_messages().into_iter().max_by_key(|om| om.rowid).filter(|om| !om.is_certified && !om.is_expired)
     }
 
     pub fn apply(&mut self, ev: &Event) -> Applied {
@@ -773,7 +778,8 @@ impl World {
             }
             Event::CheckLiveness => {
                 self.liveness_requested = true;
-                ok(String::new())
+                self.liveness_markers += 1;
+                ok(format!("end of quiescence phase {}", self.liveness_markers))
             }
         }
     }
